@@ -396,7 +396,7 @@ def object_parts(col, view):
     return parts
 
 
-def render_forms(col, obj, forms=('repr', 'str', 'as_dict', 'as_json', 'info')):
+def render_forms(col, obj, forms=('repr', 'str', 'as_dict', 'as_json', 'info', 'wif_default')):
     """-> {form: rendered value} of the DEFAULT rendering calls; a raising call is a refusal (nothing is shown)."""
     out = {}
     for form in forms:
@@ -417,6 +417,11 @@ def render_forms(col, obj, forms=('repr', 'str', 'as_dict', 'as_json', 'info')):
                 if not hasattr(obj, 'info'):
                     continue
                 val = capture(obj.info)
+            elif form == 'wif_default':
+                # HDKey.wif(is_private=None) has an explicit privacy switch: only its default is a default export
+                if not hasattr(obj, 'wif_public'):
+                    continue
+                val = obj.wif()
             elif form == 'export':
                 if not hasattr(obj, 'export'):
                     continue
@@ -439,7 +444,7 @@ def scan_rendered(col, taint, rendered):
     return out
 
 
-def text_forms(col, taint, obj, forms=('repr', 'str', 'as_dict', 'as_json', 'info')):
+def text_forms(col, taint, obj, forms=('repr', 'str', 'as_dict', 'as_json', 'info', 'wif_default')):
     return scan_rendered(col, taint, render_forms(col, obj, forms))
 
 
@@ -529,7 +534,7 @@ def check_public_view(col, taint, case, view, vname):
     return bad
 
 
-def check_default_forms(col, taint, case, obj, oname, forms=('repr', 'str', 'as_dict', 'as_json', 'info'), keyer=None):
+def check_default_forms(col, taint, case, obj, oname, forms=('repr', 'str', 'as_dict', 'as_json', 'info', 'wif_default'), keyer=None):
     """Default rendering of a (possibly private) object."""
     rendered = render_forms(col, obj, forms)
     for form in rendered:
@@ -1059,7 +1064,7 @@ def run_wallet_case(case, col):
                           ('addresslist()', lambda: w.addresslist()),
                           ('accounts()', lambda: w.accounts()),
                           ('info(detail=5)', lambda: capture(w.info, 5)),
-                          ('wif(is_private=False)', lambda: w.wif(is_private=False))):
+                          ('wif()', lambda: w.wif())):
             try:
                 val = fn()
             except Exception as e:
